@@ -11,6 +11,10 @@
 //                 indent, then the token), so t may follow an open token
 pub uninterp spec fn tok_open(t: TokenReference) -> bool;
 pub uninterp spec fn tok_nl(t: TokenReference) -> bool;
+//   tok_lc(t)     the leading trivia of t hold a comment (printed directly in front of t, behind whatever precedes it)
+pub uninterp spec fn tok_lc(t: TokenReference) -> bool;
+pub uninterp spec fn unop_lc(u: UnOp) -> bool;
+pub uninterp spec fn leaf_lc(e: Expression) -> bool;
 pub uninterp spec fn binop_open(b: BinOp) -> bool;
 pub uninterp spec fn binop_nl(b: BinOp) -> bool;
 pub uninterp spec fn unop_open(u: UnOp) -> bool;
@@ -25,6 +29,7 @@ pub uninterp spec fn leaf_safe(e: Expression) -> bool;
 
 pub uninterp spec fn other_closed<T>(x: T) -> bool;   // no line comment behind the last token, for node types this file does not model
 pub uninterp spec fn other_line_open<T>(x: T) -> bool;
+pub uninterp spec fn other_lc<T>(x: T) -> bool;
 pub uninterp spec fn other_nl<T>(x: T) -> bool;     // first token on a new line, for node types this file does not model
 
 // trivia lists the formatter builds
@@ -66,6 +71,19 @@ pub open spec fn enl(e: Expression) -> bool
         _ => leaf_nl(e),
     }
 }
+/// a comment is printed directly in front of the expression's first token
+pub open spec fn elc(e: Expression) -> bool
+    decreases e
+{
+    match e {
+        Expression::BinaryOperator { lhs, .. } => elc(*lhs),
+        Expression::UnaryOperator { unop, .. } => unop_lc(unop),
+        Expression::Parentheses { contained, .. } => tok_lc(span_open(contained)),
+        #[cfg(feature = "luau")]
+        Expression::TypeAssertion { expression, .. } => elc(*expression),
+        _ => leaf_lc(e),
+    }
+}
 /// no token inside the expression is printed behind a line comment on the same line
 pub open spec fn esafe(e: Expression) -> bool
     decreases e
@@ -73,7 +91,9 @@ pub open spec fn esafe(e: Expression) -> bool
     match e {
         Expression::BinaryOperator { lhs, binop, rhs } =>
             esafe(*lhs) && esafe(*rhs) && (eopen(*lhs) ==> binop_nl(binop)) && (binop_open(binop) ==> enl(*rhs)),
-        Expression::UnaryOperator { unop, expression } => esafe(*expression) && (unop_open(unop) ==> enl(*expression)),
+        Expression::UnaryOperator { unop, expression } => esafe(*expression) && (unop_open(unop) ==> enl(*expression))
+            // `-` directly followed by a comment would read `---…`: a comment, but not the one that was written
+            && (unop_id(unop) == UN_MINUS && elc(*expression) ==> enl(*expression)),
         Expression::Parentheses { contained, expression } =>
             esafe(*expression) && (tok_open(span_open(contained)) ==> enl(*expression)) && (eopen(*expression) ==> tok_nl(span_close(contained))),
         #[cfg(feature = "luau")]
